@@ -37,6 +37,7 @@ struct Fiber {
     void* poisoned = nullptr;
     std::size_t poisoned_len = 0;
     char sync_create = 0, sync_exit = 0;  // addresses used for tsan acquire/release
+    std::uint32_t points_since_descheduled = 1u << 30;  // own scheduling points since the last long preemption
     int quiet = 0;  // depth of KernelQuiet scopes (ThreadSanitizer ignores the kernel's own memory traffic)
 };
 
@@ -189,6 +190,7 @@ bool block(const std::function<bool()>& pred, std::int64_t deadline_abs);
 [[noreturn]] void die_current_process(ExitKind kind, const std::string& detail);
 void hash_event(std::uint64_t a, std::uint64_t b = 0, std::uint64_t c = 0);
 void tracef(const char* fmt, ...) __attribute__((format(printf, 1, 2)));
+void trace_waiters();
 void unpoison_fiber(Fiber* f);
 
 // net (sk_net.cpp)
